@@ -190,6 +190,19 @@
        all states reachable from new_map (new_map is Tidy and every conserving
        call preserves Tidy on normal return; after a panic Tidy may be lost,
        which is the tolerated leak of C04).
+   SECOND ADDENDUM (very end of this file, lemmas in Proofs/MoreHist.v):
+     richer histories for arbitrary environments (closures, clone_from, collect,
+     get_disjoint_mut, ==, consuming iterators, forgotten drains)
+                                           C02_crun_acct, C02_crun_NoDup, C02_crun_no_double_drop
+     "exactly once" for unlawful calm environments; Dict2 Tidy / exact
+                                           C02_run_exact_calm, C02_srun_exact_calm,
+                                           C02_run2_exact, C02_run2_tidy
+     provenance (stale slots above len take no part)
+                                           C02_mstep_live_acct, C02_mstep_provenance,
+                                           C02_drain_forgotten_then_run_refines
+     into_keys / into_values anchored to Exec
+                                           C02_into_steps_item_kinds, C02_into_steps_keys_next,
+                                           C02_into_steps_values_next
    AUDIT ADDENDUM (end of this file, lemmas in Proofs/MoreOwned.v) - NOW COVERED:
      - "destroyed exactly once OVERALL": the per-call triples composed over any
        history, every environment          C02_run_acct, C02_run_NoDup,
@@ -1185,9 +1198,13 @@ Proof. exact (@into_values_session_acct). Qed.
 Print Assumptions C02_into_values_session_acct.
 
 (* "or forgotten": mem::forget of a Drain after n items destroys NOTHING (log
-   unchanged); the map is empty at once (len = 0, so the not-yielded elements
-   left in the dead slots are never touched again: leaked, not destroyed twice);
-   the yielded items are the caller's *)
+   unchanged); the map is empty at once (len = 0), the yielded items are the
+   caller's and the not-yielded elements stay in the dead slots at or above len
+   (they are part of owned E (self w'): leaked).  This theorem alone does not say
+   that they are never read again; that is C02_mstep_provenance (every later
+   operation hands out / destroys only LIVE elements and its arguments, any
+   environment) and C02_drain_forgotten_then_run_refines (the continued history
+   is indistinguishable from one on a fresh empty map, lawful environment) *)
 Theorem C02_drain_forgotten_log :
   forall (K V Q T : Type) (E : env K V Q T) (n : nat) (w : world K V T),
   WF (self w) ->
@@ -1663,4 +1680,409 @@ Example C02_example_into_session :
 Proof.
   vm_compute. repeat constructor; cbn [In]; intros H;
     repeat (destruct H as [H | H]; try discriminate H); exact H.
+Qed.
+
+
+(* ========================================================================== *)
+(* ADDENDUM 2 (second audit round).  New lemmas: Proofs/MoreHist.v.
+
+   VOCABULARY (Proofs/MoreHist.v)
+     cop / cstep E debug o / cfinal E debug ops w
+        a RICHER history interpreter for an ARBITRARY environment E, composed
+        from the model's functions as Exec.step composes them:
+          CBase o            the operations of Dict2 (13 dictionary operations,
+                             drain(take n)+drop, iteration, entry().or_insert, extend)
+          CRetainF f         retain with a STATEFUL predicate f : pred_t that may panic
+          CEntryWith k f     *entry(k).or_insert_with(f), f : T -> option V * T (None = panics)
+          CEntryWithKey k f  *entry(k).or_insert_with_key(f)
+          CAndModify k f v   *entry(k).and_modify(f).or_insert(v), f : modf_t may panic
+          CDisjoint ks u     get_disjoint_mut ks / get_disjoint_unchecked_mut ks (u = true)
+          CCloneFrom src     self.clone_from(&src): replace_g E (clone_from_src E src)
+                             when the capacities agree (as Exec.step, OCloneFrom)
+          CFromIter nx items *self = items.collect(): replace_g E (from_iter E debug nx items);
+                             the source's next() = nx may panic at any call
+          CEq other          *self == other (map_eq)
+          CIntoRun kind n forget   mem::take(self).into_iter() / into_keys() / into_values():
+                             the container is detached (detach_g; the register is left
+                             empty), n items are taken inside finally_drop (the iterator
+                             is a local: a panic unwinds through its destructor), then the
+                             iterator is dropped (drop_map) or forgotten
+          CDrainForget n     drain(), n items taken, mem::forget(drain)
+        replace_g / swap_g / detach_g are Exec.replace_with / swap_self / the
+        `get_cap; get_self; put_self (new_map c); swap_self old ..` prefix of the
+        OIntoIter arm at arbitrary types (C02_replace_g_is_replace_with).
+     c_ins E o w       identities the step takes in, as a function of the state it starts
+                       from: the arguments AND the objects user code CREATES during the
+                       step - the value the entry closure returns (made_entry / made_val at
+                       the callback state after entry()'s scan), the clones (clone_made ++
+                       clone_orphans from cb w).  cins E debug ops w concatenates them along
+                       the actual run.
+     c_outs E o r      identities handed back: as op2_outs for CBase; the yielded pairs /
+                       keys / values of a consuming session; the items of a forgotten drain.
+     c_ok E o          what the ledger needs: CBase o: op2_ok; CRetainF f and CAndModify _ f _:
+                       the closure may rewrite the value in place but keeps its identity
+                       (a REPLACING closure creates objects inside the loop from
+                       intermediate callback states; the model has no function naming them:
+                       C02_retain_conserves_gen gives them existentially, per call);
+                       CCloneFrom src, CEq other: the other container is WF.  No hypothesis
+                       on ==, Clone, Drop, on whether closures / predicates / the source
+                       panic, nor on entry closures.
+     dconserves E stp ins outs o := forall w, WF (self w) -> wp (stp o)
+                       (fun a w' => WF (self w') /\ cap (self w') = cap (self w) /\
+                                    exists lost, acct E w w' (ins o w) (outs o a) lost)
+                       (fun w' => ... acct E w w' (ins o w) [] lost) w
+     DropCalm E        no Drop ever panics (== and Clone arbitrary: == may lie AND panic)
+     live_ids E m      flat_map (ids_pair E) (Spec.elems m): identities of the LIVE prefix;
+     pv_stale_ids E m  those sitting in slots at or above len
+   ========================================================================== *)
+Require Import Proofs.MoreIter Proofs.MoreHist.
+
+(* -------------------------------------------------------------------------- *)
+(* "however the container, its consuming iterators and its drains are used":
+   the ledger along histories that interleave stateful / panicking predicates and
+   closures, get_disjoint_mut, clone_from, collect from a panicking source, ==,
+   consuming iterators dropped or forgotten midway and forgotten drains with the
+   dictionary operations - EVERY environment, both outcomes of every step *)
+Theorem C02_cstep_dconserves :
+  forall (K V Q T : Type) (E : env K V Q T) (debug : bool) (o : cop),
+  c_ok E o -> dconserves E (cstep E debug) (c_ins E) (c_outs E) o.
+Proof. exact (@cstep_dconserves). Qed.
+Print Assumptions C02_cstep_dconserves.
+
+Theorem C02_crun_acct :
+  forall (K V Q T : Type) (E : env K V Q T) (debug : bool) (ops : list cop) (w : world K V T),
+  WF (self w) ->
+  Forall (c_ok E) ops ->
+  exists (wf : world K V T) (lost : list N),
+    cfinal E debug ops w = Some wf /\
+    WF (self wf) /\
+    cap (self wf) = cap (self w) /\
+    Permutation (owned E (self wf) ++ couts E debug ops w ++ lost ++ dropped (log wf))
+      (owned E (self w) ++ cins E debug ops w ++ dropped (log w)).
+Proof. exact (@crun_acct). Qed.
+Print Assumptions C02_crun_acct.
+
+(* Assumed: the identities stored at the start, everything the history takes in
+   (arguments and every object user code creates on the way: cins), uninvolved
+   ones and those already destroyed are pairwise distinct.  Then at the end no
+   identity occurs twice among stored ++ with the caller ++ extra ++ destroyed *)
+Theorem C02_crun_NoDup :
+  forall (K V Q T : Type) (E : env K V Q T) (debug : bool) (ops : list cop)
+    (w wf : world K V T) (extra : list N),
+  WF (self w) ->
+  Forall (c_ok E) ops ->
+  NoDup (owned E (self w) ++ cins E debug ops w ++ extra ++ dropped (log w)) ->
+  cfinal E debug ops w = Some wf ->
+  NoDup (owned E (self wf) ++ couts E debug ops w ++ extra ++ dropped (log wf)).
+Proof. exact (@crun_NoDup). Qed.
+Print Assumptions C02_crun_NoDup.
+
+Theorem C02_crun_no_double_drop :
+  forall (K V Q T : Type) (E : env K V Q T) (debug : bool) (ops : list cop)
+    (w wf : world K V T),
+  WF (self w) ->
+  Forall (c_ok E) ops ->
+  NoDup (owned E (self w) ++ cins E debug ops w ++ dropped (log w)) ->
+  cfinal E debug ops w = Some wf ->
+  NoDup (dropped (log wf)) /\
+  NoDup (owned E (self wf)) /\
+  (forall x : N,
+   In x (owned E (self wf)) -> ~ In x (dropped (log wf)) /\ ~ In x (couts E debug ops w)) /\
+  (forall x : N, In x (couts E debug ops w) -> ~ In x (dropped (log wf))).
+Proof. exact (@crun_no_double_drop). Qed.
+Print Assumptions C02_crun_no_double_drop.
+
+(* the new interpreter extends the old one; its replace_g is Exec.replace_with *)
+Theorem C02_cfinal_base :
+  forall (K V Q T : Type) (E : env K V Q T) (debug : bool) (ops : list dop2) (w : world K V T),
+  cfinal E debug (List.map CBase ops) w = mfinal2 E debug ops w.
+Proof. exact (@cfinal_base). Qed.
+Print Assumptions C02_cfinal_base.
+
+Theorem C02_replace_g_is_replace_with :
+  forall (V : Type) (E : env key V query cstate) (build : M key V cstate unit) 
+    (body : list N) (w : world key V cstate),
+  (replace_g E build;; ret body) w = replace_with E build body w.
+Proof. exact (@replace_g_is_replace_with). Qed.
+Print Assumptions C02_replace_g_is_replace_with.
+
+(* -------------------------------------------------------------------------- *)
+(* "exactly once" (not only "at most once") for an UNLAWFUL environment: == may
+   lie in any way, even panic; only Drop must not panic (DropCalm).  From a Tidy
+   state every history keeps Tidy and the accounting is exact (no `lost`).
+   op_pouts_c: what a panicking get_mut / index_mut leaves with the caller (the
+   value that was to be written).  Map (13 operations) and Set (all 9). *)
+Theorem C02_run_exact_calm :
+  forall (K V Q T : Type) (E : env K V Q T) (debug : bool) (ops : list dop) (w : world K V T),
+  DropCalm E ->
+  WF (self w) ->
+  Tidy (self w) ->
+  Forall (op_ok E) ops ->
+  exists wf : world K V T,
+    mfinal E debug ops w = Some wf /\
+    WF (self wf) /\
+    cap (self wf) = cap (self w) /\
+    Tidy (self wf) /\
+    Permutation
+      (owned E (self wf) ++
+       gouts (mstep E debug) (op_outs E) (op_pouts_c E) ops w ++ dropped (log wf))
+      (owned E (self w) ++ flat_map (op_ins E) ops ++ dropped (log w)).
+Proof. exact (@run_exact_calm). Qed.
+Print Assumptions C02_run_exact_calm.
+
+Theorem C02_run_tidy_calm :
+  forall (K V Q T : Type) (E : env K V Q T) (debug : bool) (ops : list dop)
+    (w wf : world K V T),
+  DropCalm E ->
+  WF (self w) ->
+  Tidy (self w) -> Forall (op_ok E) ops -> mfinal E debug ops w = Some wf -> Tidy (self wf).
+Proof. exact (@run_tidy_calm). Qed.
+Print Assumptions C02_run_tidy_calm.
+
+Theorem C02_run_exact_calm_new :
+  forall (K V Q T : Type) (E : env K V Q T) (debug : bool) (n : nat) (ops : list dop) (s : T),
+  DropCalm E ->
+  Forall (op_ok E) ops ->
+  let w0 := {| cb := s; log := []; self := new_map n |} in
+  exists wf : world K V T,
+    mfinal E debug ops w0 = Some wf /\
+    Tidy (self wf) /\
+    Permutation
+      (owned E (self wf) ++
+       gouts (mstep E debug) (op_outs E) (op_pouts_c E) ops w0 ++ dropped (log wf))
+      (flat_map (op_ins E) ops).
+Proof. exact (@run_exact_calm_new). Qed.
+Print Assumptions C02_run_exact_calm_new.
+
+Theorem C02_srun_exact_calm :
+  forall (K Q T : Type) (E : env K unit Q T) (debug : bool),
+  idV E tt = [] ->
+  forall (ops : list sop) (w : world K unit T),
+  DropCalm E ->
+  WF (self w) ->
+  Tidy (self w) ->
+  exists wf : world K unit T,
+    smfinal E debug ops w = Some wf /\
+    WF (self wf) /\
+    cap (self wf) = cap (self w) /\
+    Tidy (self wf) /\
+    Permutation (owned E (self wf) ++ souts E debug ops w ++ dropped (log wf))
+      (owned E (self w) ++ flat_map (sop_ins E) ops ++ dropped (log w)).
+Proof. exact (@srun_exact_calm). Qed.
+Print Assumptions C02_srun_exact_calm.
+
+Theorem C02_srun_tidy_calm :
+  forall (K Q T : Type) (E : env K unit Q T) (debug : bool),
+  idV E tt = [] ->
+  forall (ops : list sop) (w wf : world K unit T),
+  DropCalm E ->
+  WF (self w) -> Tidy (self w) -> smfinal E debug ops w = Some wf -> Tidy (self wf).
+Proof. exact (@srun_tidy_calm). Qed.
+Print Assumptions C02_srun_tidy_calm.
+
+(* Tidy and exact accounting for the interleaved Dict2 histories (drain + drop,
+   iteration, entry().or_insert, extend), lawful environment *)
+Theorem C02_run2_exact :
+  forall (K V Q T : Type) (E : env K V Q T) (debug : bool) (ck : K -> N) (cq : Q -> N),
+  Lawful E ck cq ->
+  forall (ops : list dop2) (w : world K V T),
+  WF (self w) ->
+  Tidy (self w) ->
+  Forall (op2_ok E) ops ->
+  exists wf : world K V T,
+    mfinal2 E debug ops w = Some wf /\
+    WF (self wf) /\
+    cap (self wf) = cap (self w) /\
+    Tidy (self wf) /\
+    Permutation
+      (owned E (self wf) ++
+       gouts (mstep2 E debug) (op2_outs E) (op2_pouts E) ops w ++ dropped (log wf))
+      (owned E (self w) ++ flat_map (op2_ins E) ops ++ dropped (log w)).
+Proof. exact (@run2_exact). Qed.
+Print Assumptions C02_run2_exact.
+
+Theorem C02_run2_tidy :
+  forall (K V Q T : Type) (E : env K V Q T) (debug : bool) (ck : K -> N) (cq : Q -> N),
+  Lawful E ck cq ->
+  forall (ops : list dop2) (w wf : world K V T),
+  WF (self w) ->
+  Tidy (self w) -> Forall (op2_ok E) ops -> mfinal2 E debug ops w = Some wf -> Tidy (self wf).
+Proof. exact (@run2_tidy). Qed.
+Print Assumptions C02_run2_tidy.
+
+(* -------------------------------------------------------------------------- *)
+(* PROVENANCE.  The model's UB only excludes reading an empty or out-of-range
+   slot; a stale element left above len by an earlier panic (WF but not Tidy
+   states) would be readable without UB.  The ledger restricted to the LIVE
+   prefix: what a step hands out, destroys or keeps live comes from the live
+   elements or from its own arguments - stale slots take no part (every
+   environment, both outcomes, all 13 operations) *)
+Theorem C02_owned_split :
+  forall (K V Q T : Type) (E : env K V Q T) (m : map K V),
+  WF m -> Permutation (owned E m) (live_ids E m ++ pv_stale_ids E m).
+Proof. exact (@pv_owned_split). Qed.
+Print Assumptions C02_owned_split.
+
+Theorem C02_mstep_live_acct :
+  forall (K V Q T : Type) (E : env K V Q T) (debug : bool) (o : dop) (w : world K V T),
+  op_ok E o ->
+  WF (self w) ->
+  wp (mstep E debug o)
+    (fun (r : dres) (w' : world K V T) =>
+     exists d lost : list N,
+       dropped (log w') = dropped (log w) ++ d /\
+       Permutation (live_ids E (self w') ++ op_outs E o r ++ lost ++ d)
+         (live_ids E (self w) ++ op_ins E o))
+    (fun w' : world K V T =>
+     exists d lost : list N,
+       dropped (log w') = dropped (log w) ++ d /\
+       Permutation (live_ids E (self w') ++ lost ++ d) (live_ids E (self w) ++ op_ins E o)) w.
+Proof. exact (@mstep_live_acct). Qed.
+Print Assumptions C02_mstep_live_acct.
+
+Theorem C02_mstep_provenance :
+  forall (K V Q T : Type) (E : env K V Q T) (debug : bool) (o : dop) (w : world K V T),
+  op_ok E o ->
+  WF (self w) ->
+  wp (mstep E debug o)
+    (fun (r : dres) (w' : world K V T) =>
+     exists d : list N,
+       dropped (log w') = dropped (log w) ++ d /\
+       incl (op_outs E o r ++ d) (live_ids E (self w) ++ op_ins E o) /\
+       incl (live_ids E (self w')) (live_ids E (self w) ++ op_ins E o))
+    (fun w' : world K V T =>
+     exists d : list N,
+       dropped (log w') = dropped (log w) ++ d /\
+       incl d (live_ids E (self w) ++ op_ins E o) /\
+       incl (live_ids E (self w')) (live_ids E (self w) ++ op_ins E o)) w.
+Proof. exact (@mstep_provenance). Qed.
+Print Assumptions C02_mstep_provenance.
+
+(* a history continued after a FORGOTTEN drain behaves exactly like a history on
+   a fresh empty map of the same capacity: the leaked elements left in the dead
+   slots are never observed again (lawful environment) *)
+Theorem C02_drain_forgotten_then_run_refines :
+  forall (K V Q T : Type) (E : env K V Q T) (debug : bool) (ck : K -> N) (cq : Q -> N),
+  Lawful E ck cq ->
+  forall (take : nat) (ops : list dop) (w : world K V T),
+  WF (self w) ->
+  match (c <- drain;; drain_run take c) w with
+  | Ok _ w' =>
+      cap (self w') = cap (self w) /\
+      mrun E debug ops w' = drun ck cq (cap (self w)) ops [] /\
+      (forall (s : T) (lg : list event),
+       mrun E debug ops w' =
+       mrun E debug ops {| cb := s; log := lg; self := new_map (cap (self w)) |})
+  | _ => False
+  end.
+Proof. exact (@drain_forgotten_then_run_refines). Qed.
+Print Assumptions C02_drain_forgotten_then_run_refines.
+
+(* -------------------------------------------------------------------------- *)
+(* the accounting of into_keys / into_values (C02_conserves_into_keys_next,
+   C02_into_keys_session_acct, ...) is about Owned2.into_keys_next /
+   into_values_next; the interpreter's consuming sessions (Exec.into_steps, kind
+   1 / 2) compute exactly these *)
+Theorem C02_into_steps_item_kinds :
+  forall (sc : script) (p : key * vobj),
+  into_steps_item sc 0 p = ret (r_pair p) /\
+  into_steps_item sc 1 p = drop_val (env_map sc) (snd p);; ret (r_key (fst p)) /\
+  into_steps_item sc 2 p = drop_key (env_map sc) (fst p);; ret (r_val (snd p)).
+Proof. exact (@into_steps_item_kinds). Qed.
+Print Assumptions C02_into_steps_item_kinds.
+
+Theorem C02_into_steps_keys_next :
+  forall (sc : script) (w : mworld),
+  (o <- into_iter_next;;
+   match o with
+   | Some p => it <- into_steps_item sc 1 p;; ret (Some it)
+   | None => ret None
+   end) w = (o <- into_keys_next (env_map sc);; ret (option_map r_key o)) w.
+Proof. exact (@into_steps_keys_next). Qed.
+Print Assumptions C02_into_steps_keys_next.
+
+Theorem C02_into_steps_values_next :
+  forall (sc : script) (w : mworld),
+  (o <- into_iter_next;;
+   match o with
+   | Some p => it <- into_steps_item sc 2 p;; ret (Some it)
+   | None => ret None
+   end) w = (o <- into_values_next (env_map sc);; ret (option_map r_val o)) w.
+Proof. exact (@into_steps_values_next). Qed.
+Print Assumptions C02_into_steps_values_next.
+
+(* -------------------------------------------------------------------------- *)
+(* non-vacuity                                                                *)
+(* a cop history on the full map m3 under the "nothing equals anything" == (seed
+   6) with the interpreter's stateful closures: hypotheses of C02_crun_NoDup, and
+   the run: 20 identities taken in (7 8 10 11 arguments, 100000..100005 the clones
+   of m3, 12..19 collected, 20 and the default value 100006 of the entry closure) *)
+Definition C02_cops (sc : script) : list (@cop key vobj query cstate) :=
+  [CBase (DBase (DRemove (QCls 6)));
+   CEntryWith (k_ 7 9) (mk_val sc (v_ 8 1));
+   CRetainF (pred_m sc 1 [(5, 2)]%N);
+   CAndModify (k_ 10 5) (modf_add sc) (v_ 11 2);
+   CDisjoint [QCls 5; QCls 7] false;
+   CEq m3;
+   CCloneFrom m3;
+   CFromIter (nx_cb sc) [(k_ 12 1, v_ 13 1); (k_ 14 2, v_ 15 2)];
+   CIntoRun IKeys 1 false;
+   CFromIter (nx_cb sc) [(k_ 16 1, v_ 17 1); (k_ 18 2, v_ 19 2)];
+   CDrainForget 1;
+   CEntryWithKey (k_ 20 3) (fun _ => mk_default sc)].
+Definition C02_sc_never : script := {| sc_adv := true; sc_seed := 6; sc_fk := 0; sc_fa := 0 |}.
+(* seed 4 (PRNG lies) and the clone call number 3 - a V::clone - panics *)
+Definition C02_sc_clone_fault : script := {| sc_adv := true; sc_seed := 4; sc_fk := 2; sc_fa := 3 |}.
+
+Example C02_example_cops_ok : forall sc, Forall (c_ok (env_map sc)) (C02_cops sc).
+Proof.
+  intros sc. unfold C02_cops.
+  repeat (apply Forall_cons; [cbn [c_ok op2_ok op_ok]; try exact I; try exact m3_WF|]); [| |apply Forall_nil].
+  - intros s k v. apply pred_m_keeps_id.
+  - intros s v. apply modf_add_keeps_id.
+Qed.
+
+Example C02_example_cops_fresh :
+  NoDup (owned (env_map C02_sc_never) (self (w_of m3)) ++
+         cins (env_map C02_sc_never) false (C02_cops C02_sc_never) (w_of m3) ++ dropped (log (w_of m3))).
+Proof.
+  vm_compute. repeat constructor; cbn [In]; intros H;
+    repeat (destruct H as [H | H]; try discriminate H); exact H.
+Qed.
+
+Example C02_example_cops_run :
+  match cfinal (env_map C02_sc_never) false (C02_cops C02_sc_never) (w_of m3) with
+  | Some wf => owned (env_map C02_sc_never) (self wf) = [20; 100006; 18; 19]%N /\
+               couts (env_map C02_sc_never) false (C02_cops C02_sc_never) (w_of m3) = [14; 16; 17]%N /\
+               dropped (log wf) = [8; 7; 11; 10; 1; 2; 3; 4; 5; 6; 100000; 100001; 100002; 100003; 100004;
+                                   100005; 15; 12; 13]%N
+  | None => False
+  end.
+Proof. vm_compute. repeat split; reflexivity. Qed.
+
+(* the same history when a V::clone panics inside clone_from: the orphan key
+   100002 and the complete pair 100000 100001 are destroyed by unwinding, the
+   register keeps its old contents, the history goes on *)
+Example C02_example_cops_clone_panic :
+  cins (env_map C02_sc_clone_fault) false (C02_cops C02_sc_clone_fault) (w_of m3) =
+    [7; 8; 10; 11; 100000; 100001; 100002; 12; 13; 14; 15; 16; 17; 18; 19; 20; 100003]%N /\
+  match cfinal (env_map C02_sc_clone_fault) false (C02_cops C02_sc_clone_fault) (w_of m3) with
+  | Some wf => owned (env_map C02_sc_clone_fault) (self wf) = [20; 100003]%N /\
+               couts (env_map C02_sc_clone_fault) false (C02_cops C02_sc_clone_fault) (w_of m3) = [14; 16; 19]%N /\
+               dropped (log wf) = [8; 7; 10; 11; 100002; 100000; 100001; 1; 2; 3; 4; 5; 6; 15; 12; 13; 18; 17]%N
+  | None => False
+  end.
+Proof. vm_compute. repeat split; reflexivity. Qed.
+
+(* DropCalm holds of every script that injects no Drop fault, however == lies *)
+Example C02_example_DropCalm : DropCalm (env_map C02_sc_never) /\ DropCalm (env_set C02_sc_never).
+Proof. split; split; intros; reflexivity. Qed.
+
+(* DrainInv (Safety2; hypothesis of C02_drain_next_acct / C02_drain_drop_acct):
+   the state of m3 after drain() and one next(): len 0, the cursor (1, 3) still
+   owns the live slots 1 and 2 *)
+Example C02_example_DrainInv : DrainInv (1, 3) (set_slot_m (set_len_m m3 0) 0 None).
+Proof.
+  split; [reflexivity|]. split; [cbn; lia|].
+  intros j Hj. cbn [fst snd] in Hj. destruct j as [|[|[|j]]]; try lia; eexists; reflexivity.
 Qed.
